@@ -1,8 +1,10 @@
 ----------------------------- MODULE SurfaceGen -----------------------------
 (* View programs for replay: parents incl. zero extents, chains of up to    *)
 (* three view / transpose steps with selectors of every form and bounds     *)
-(* beyond the axis.  Chains of length one are exhaustive over Sels x Sels   *)
-(* for the small parents; longer chains are sampled (RandomSubset, -seed).  *)
+(* beyond the axis.  Every selector of the family is applied on one axis    *)
+(* (plain, on the other axis, after a transpose, nested in a window);       *)
+(* two-axis combinations and longer chains are sampled (RandomSubset,       *)
+(* -seed).                                                                  *)
 EXTENDS Surface, TLC, Json, IOUtils, SequencesExt, Randomization
 CONSTANTS B, Sample
 Vals == -B..B
@@ -24,6 +26,9 @@ Chains == { <<s>> : s \in Steps1 } \cup { <<Tr>> } \cup { <<Tr, s>> : s \in Few 
           \cup { <<s1, s2>> : s1 \in Few, s2 \in Few }
           \cup { <<s1, Tr, s2>> : s1 \in RandomSubset(Sample \div 2, Steps1), s2 \in RandomSubset(Sample \div 2, Steps1) }
           \cup { <<Tr, s1, Tr>> : s1 \in Few }
+          \* every selector of the family on one axis (exhaustive, not sampled): plain, on the other axis, after a transpose, nested in a window
+          \cup { <<Vw(e, Sel("full", 0, 0))>> : e \in Sels } \cup { <<Vw(Sel("full", 0, 0), e)>> : e \in Sels } \cup { <<Tr, Vw(e, Sel("full", 0, 0))>> : e \in Sels }
+          \cup { <<Vw(Sel("range", 1, -1), Sel("from", 1, 0)), Vw(e, Sel("full", 0, 0))>> : e \in Sels }
           \cup { <<Vw(e, Sel("full", 0, 0))>> : e \in ExtSels } \cup { <<Vw(Sel("from", 1, 0), e)>> : e \in ExtSels } \cup { <<Tr, Vw(e, Sel("to", 0, -1))>> : e \in ExtSels }
 Out == SetToSeq({ [hp |-> p[1], wp |-> p[2], chain |-> ch] : p \in Parents, ch \in Chains })
 ASSUME ndJsonSerialize(IOEnv.OUT, Out)
